@@ -9,10 +9,15 @@ type tp_fix = {
   mutable f_exc : string list;
   mutable f_own : (z * z) list;
   mutable f_ranges : (string * tp_dayrange * (z * z) list) list;   (* key string, day definition, time ranges *)
+  mutable f_active : bool;                    (* started (tp_start): the timer handler visits it *)
+  mutable f_n0 : int;                         (* clock at tp_start *)
+  mutable f_snap : (z * z) list list * (z * z) list list;   (* oracle: the referenced periods' observed segments at the last round that recomputed *)
+  f_own_at : (int, bool) Hashtbl.t;           (* oracle: what the period's own written ranges say at a probe (memo) *)
 }
 
 let tp_tab : (string, tp_fix) Hashtbl.t = Hashtbl.create 16
 let tp_pts : int list ref = ref []
+let tp_order : string list ref = ref []                  (* creation order = the order of the timer handler *)
 let tp_zone : (z * (z * z) list) ref = ref (Z0, [])      (* base offset, transitions *)
 
 let split_c s sep = if s = "-" || s = "" then [] else String.split_on_char sep s
@@ -37,7 +42,8 @@ let tp_emit_state a =
   emit (tp_state_line (str a "name" "") f.f_st (List.map (fun t -> tp_is_inside f.f_st (z_of_int t)) !tp_pts))
 
 let tp_new_fix a = { f_st = tp_empty; f_prefer = (num a "prefer" 1 <> 0); f_inc = split_c (str a "inc" "-") ',';
-                     f_exc = split_c (str a "exc" "-") ','; f_own = []; f_ranges = [] }
+                     f_exc = split_c (str a "exc" "-") ','; f_own = []; f_ranges = [];
+                     f_active = false; f_n0 = 0; f_snap = ([], []); f_own_at = Hashtbl.create 64 }
 
 (* ---- day definitions / time ranges as printed by the generator (ast=...) ----
    spec:  d.Y.M.D | m.MON.N (MON=-1: "day N") | w.WDAY.N.MON (N=0: plain weekday, MON=-1: no month)
@@ -110,6 +116,27 @@ let op_tp_upd a =
       (z_of_int (tnum (str a "b" "0"))) (z_of_int (tnum (str a "e" "0"))) (num a "clear" 1 <> 0) f.f_st;
   tp_emit_state a
 
+(* Start(): UpdateRegion(now, now + 24 h, true); the timer handler: every started period in creation order *)
+let op_tp_start a =
+  let f = tp_get a in
+  let incs = List.map (fun g -> g.f_st.tp_segs) (tp_existing f.f_inc) in
+  let excs = List.map (fun g -> g.f_st.tp_segs) (tp_existing f.f_exc) in
+  let nowz = z_of_int !now in
+  f.f_active <- true;
+  f.f_st <- (if f.f_st = tp_empty then tp_roll_start (tp_upd_fun f) f.f_prefer ((nowz, incs), excs)
+             else tp_update_region true (tp_upd_fun f) f.f_prefer incs excs nowz (z_of_int (!now + 86400)) true f.f_st);
+  tp_emit_state a
+
+let op_tp_timer _ =
+  List.iter (fun name ->
+    match Hashtbl.find_opt tp_tab name with
+    | Some f when f.f_active ->
+      let incs = List.map (fun g -> g.f_st.tp_segs) (tp_existing f.f_inc) in
+      let excs = List.map (fun g -> g.f_st.tp_segs) (tp_existing f.f_exc) in
+      f.f_st <- tp_roll_round (tp_upd_fun f) f.f_prefer ((z_of_int !now, incs), excs) f.f_st;
+      emit (tp_state_line name f.f_st (List.map (fun t -> tp_is_inside f.f_st (z_of_int t)) !tp_pts))
+    | _ -> ()) !tp_order
+
 (* ---------------- oracle over implementation traces ---------------- *)
 let parse_state_line l =
   (* -> name, state, ins *)
@@ -129,7 +156,12 @@ let oracle_c08_case script trace =
   let clock = ref 0 in
   let err = ref None in
   let tr = ref trace in
+  let order = ref [] in
+  (* the latest clock value of the script: the rolling cases are judged up to 24 h after it *)
+  let nmax = List.fold_left (fun m line -> match parse_line line with
+      | Some ("now", a) -> max m (tnum (List.hd a.pos)) | _ -> m) 0 script in
   let fail m = if !err = None then err := Some m in
+  let stale = ref None in       (* a hit of the known staleness class does not stop the judgement of the rest of the case *)
   let next li k =
     match !tr with
     | [] -> fail (Printf.sprintf "step=%d missing-observation" li)
@@ -167,7 +199,55 @@ let oracle_c08_case script trace =
         | Some "hang" -> fail (Printf.sprintf "step=%d op=tp_parse day-definition-never-finishes (validation hangs)" li)
         | Some r -> fail (Printf.sprintf "step=%d op=tp_parse res=%s expected=%s" li r want)
         | None -> fail (Printf.sprintf "step=%d unexpected-line %s" li l))
-    | Some ("tp_new", a) -> Hashtbl.replace fx (str a "name" "") (tp_new_fix a)
+    | Some ("tp_new", a) -> Hashtbl.replace fx (str a "name" "") (tp_new_fix a); order := !order @ [str a "name" ""]
+    | Some ("tp_timer", _) ->
+      (* one expiry of the update timer: every started period, in creation order, is judged by the statement of
+         C08_rolling_updates at every probe from one hour before the round (not before its start) up to its valid_end *)
+      List.iter (fun name ->
+        match Hashtbl.find_opt fx name with
+        | Some f when f.f_active && !err = None ->
+          next li (fun l ->
+            match parse_state_line l with
+            | Some (n, post, ins) when n = name ->
+              let probes = List.map z_of_int !pts in
+              let existing names = List.filter_map (fun n -> Hashtbl.find_opt fx n) names in
+              let pre = f.f_st in
+              let nowz = z_of_int !clock in
+              let e = z_of_int (!clock + 86400) in
+              let r = ((nowz, List.map (fun g -> g.f_st.tp_segs) (existing f.f_inc)), List.map (fun g -> g.f_st.tp_segs) (existing f.f_exc)) in
+              let effective = tp_roll_effective r pre in
+              if effective then f.f_snap <- (snd (fst r), snd r);
+              let lo = max f.f_n0 (!clock - 3600) in
+              let (base, tab) = !zone in
+              let rg = List.map (fun (_, dd, trs) -> (dd, trs)) f.f_ranges in
+              let own_at t =
+                if f.f_ranges = [] then tp_inside_segs f.f_own (z_of_int t)
+                else match Hashtbl.find_opt f.f_own_at t with
+                  | Some b -> b
+                  | None ->
+                    let b = tp_spec_inside (tp_tab_off base tab) (tp_tab_mk base tab) false None tp_back rg (z_of_int t) in
+                    Hashtbl.replace f.f_own_at t b; b in
+              let verdict =
+                if not (tp_ins_ok post probes ins) then Some "rolling is_inside-answers-disagree-with-observed-segments"
+                else if not (tp_covers_b post (z_of_int lo) (if effective then e else tp_ve_num pre)) then
+                  Some "rolling window (valid_begin later than one hour before the round, or valid_end short of now + 24 h)"
+                else if effective && f.f_ranges <> []
+                        && not (tp_cal_hyps_ok tp_src_stride_round tp_src_lookback base tab rg (tp_ve_num (tp_purge (z_of_int (!clock - 3600)) pre)) e) then
+                  Some "calendar-hypotheses-not-met (table / exists-exactly-once check failed)"
+                else begin
+                  let (si, sx) = f.f_snap in
+                  let answers = List.map2 (fun t o ->
+                      ((z_of_int t, (o, own_at t)), (tp_inside_any si (z_of_int t), tp_inside_any sx (z_of_int t)))) !pts ins in
+                  match tp_roll_answers_ok f.f_prefer (z_of_int lo) (tp_ve_num post) answers with
+                  | None -> None
+                  | Some t -> Some (Printf.sprintf "rolling t=%s (IsInside differs from the statement inside the valid window)" (zs t))
+                end in
+              f.f_st <- post;
+              (match verdict with
+               | None -> ()
+               | Some what -> fail (Printf.sprintf "step=%d op=tp_timer name=%s now=%d violates-C08 %s" li name !clock what))
+            | _ -> fail (Printf.sprintf "step=%d unexpected-line %s" li l))
+        | _ -> ()) !order
     | Some ("tp_own", a) -> (Hashtbl.find fx (str a "name" "")).f_own <- List.map parse_seg (split_c (str a "segs" "-") ',')
     | Some ("tp_range", a) ->
       if not (tp_printer_agrees a) then fail (Printf.sprintf "step=%d op=tp_range parse-roundtrip: the parser model does not return the parsed form the generator printed" li)
@@ -176,12 +256,46 @@ let oracle_c08_case script trace =
       let f = Hashtbl.find fx (str a "name" "") in
       next li (fun l ->
         let want = tp_is_inside f.f_st (z_of_int !clock) in
-        if tok_val (toks_of l) "is_inside" <> Some (if want then "1" else "0") then
-          fail (Printf.sprintf "step=%d op=now is_inside-attribute-disagrees-with-segments" li))
-    | Some (("tp_add" | "tp_rm" | "tp_purge" | "tp_upd") as opn, a) ->
+        let got = tok_val (toks_of l) "is_inside" in
+        if got <> Some (if want then "1" else "0") then
+          fail (Printf.sprintf "step=%d op=now is_inside-attribute-disagrees-with-segments" li)
+        else if f.f_active && !clock >= f.f_n0 then begin
+          (* a started period at the present instant: the property read literally - "lies in an included / excluded
+             period" is what that period's own definition says (recursively), whatever has been computed so far *)
+          let (base, tab) = !zone in
+          let tz = z_of_int !clock in
+          let own_of g =
+            if g.f_ranges = [] then tp_inside_segs g.f_own tz
+            else tp_spec_inside (tp_tab_off base tab) (tp_tab_mk base tab) false None tp_back
+                (List.map (fun (_, dd, trs) -> (dd, trs)) g.f_ranges) tz in
+          let rec truth depth g =
+            if depth > 6 || not g.f_active then None
+            else
+              let sub names = List.fold_left (fun acc n ->
+                  match acc, Hashtbl.find_opt fx n with
+                  | None, _ -> None
+                  | acc, None -> acc                                   (* a name that does not exist is skipped *)
+                  | Some b, Some h -> (match truth (depth + 1) h with Some x -> Some (b || x) | None -> None)) (Some false) names in
+              match sub g.f_inc, sub g.f_exc with
+              | Some i, Some x -> Some (tp_region_spec g.f_prefer (own_of g) i x)
+              | _ -> None in
+          match truth 0 f with
+          | Some t when t <> want ->
+            let (si, sx) = f.f_snap in
+            let snap = tp_region_spec f.f_prefer (own_of f) (tp_inside_any si tz) (tp_inside_any sx tz) in
+            if snap = want then begin
+              if !stale = None then
+                stale := Some (Printf.sprintf "step=%d op=now name=%s now=%d violates-C08 stale-reference: is_inside at the clock differs from the statement and equals the statement with the referenced periods as they were when the period last recomputed" li (str a "name" "") !clock)
+            end else
+              fail (Printf.sprintf "step=%d op=now name=%s now=%d violates-C08 rolling now (is_inside at the clock differs from the statement)" li (str a "name" "") !clock)
+          | _ -> ()
+        end)
+    | Some (("tp_add" | "tp_rm" | "tp_purge" | "tp_upd" | "tp_start") as opn, a) ->
       let name = str a "name" "" in
       let f = Hashtbl.find fx name in
-      let zi k = z_of_int (tnum (str a k "0")) in
+      (* tp_start = UpdateRegion(now, now + 24 h, true) *)
+      let zi k = if opn = "tp_start" then z_of_int (match k with "b" -> !clock | "e" -> !clock + 86400 | _ -> 0)
+                 else z_of_int (tnum (str a k "0")) in
       next li (fun l ->
         match parse_state_line l with
         | Some (n, post, ins) when n = name ->
@@ -196,7 +310,10 @@ let oracle_c08_case script trace =
             | "tp_rm" -> if tp_step_ok probes (TpOpRemove (zi "b", zi "e")) pre post ins then None else Some "remove"
             | "tp_purge" -> if tp_step_ok probes (TpOpPurge (zi "t")) pre post ins then None else Some "purge"
             | _ ->
-              let clear = num a "clear" 1 <> 0 in
+              let clear = opn = "tp_start" || num a "clear" 1 <> 0 in
+              if opn = "tp_start" then begin
+                f.f_active <- true; f.f_n0 <- !clock; f.f_snap <- (incs, excs)
+              end;
               if f.f_ranges = [] then
                 (if tp_step_ok probes (TpOpUpdate (f.f_own, f.f_prefer, incs, excs, zi "b", zi "e", clear)) pre post ins
                  then None else Some "update-region")
@@ -207,8 +324,13 @@ let oracle_c08_case script trace =
                 if (not noop) && not (tp_cal_hyps_ok tp_src_stride_round tp_src_lookback base tab rg (tp_upd_begin (zi "b") clear pre) (zi "e")) then
                   Some "calendar-hypotheses-not-met (table / exists-exactly-once check failed)"
                 else
-                match tp_cal_step_ok base tab
-                        (List.map (fun (_, dd, trs) -> (dd, trs)) f.f_ranges)
+                (* where to look is asked of the WRITTEN ranges of every period of the case (tp_spec_bounds), not of
+                   anything the implementation produced *)
+                let allr = Hashtbl.fold (fun _ g acc -> List.map (fun (_, dd, trs) -> (dd, trs)) g.f_ranges @ acc) fx [] in
+                if opn = "tp_start" && not (tp_probes_cover probes (tp_spec_bounds base tab allr (zi "b") (z_of_int (nmax + 86400)))) then
+                  Some "calendar t=0 class=7"
+                else
+                match tp_cal_step_ok base tab allr rg
                         f.f_prefer incs excs (zi "b") (zi "e") clear probes pre post ins with
                 | None -> None
                 | Some (t, cls) -> Some (Printf.sprintf "calendar t=%s class=%s" (zs t) (zs (tp_class_name cls)))
@@ -219,7 +341,7 @@ let oracle_c08_case script trace =
            | Some what -> fail (Printf.sprintf "step=%d op=%s name=%s violates-C08 %s" li opn name what))
         | _ -> fail (Printf.sprintf "step=%d unexpected-line %s" li l))
     | _ -> ()) script;
-  !err
+  (match !err with Some _ -> !err | None -> !stale)
 
 let () =
   register_op "tp_pts" (fun a -> tp_pts := List.map tnum (split_c (List.hd a.pos) ','));
@@ -236,7 +358,9 @@ let () =
       String.concat "," (List.map (fun s -> zs (tp_tab_mk base tab (z_of_int (int_of_string s)))) ls))));
   register_op "tp_parse" (fun a ->
     emit ("tp_parse res=" ^ (if tp_validate a then "ok" else "rejected")));
-  register_op "tp_new" (fun a -> Hashtbl.replace tp_tab (str a "name" "") (tp_new_fix a));
+  register_op "tp_new" (fun a -> Hashtbl.replace tp_tab (str a "name" "") (tp_new_fix a); tp_order := !tp_order @ [str a "name" ""]);
+  register_op "tp_start" op_tp_start;
+  register_op "tp_timer" op_tp_timer;
   register_op "tp_own" (fun a -> (tp_get a).f_own <- List.map parse_seg (split_c (str a "segs" "-") ','));
   register_op "tp_range" (fun a -> tp_apply_range (tp_get a) a);
   register_op "tp_add" (fun a -> let f = tp_get a in
@@ -248,5 +372,5 @@ let () =
   register_op "tp_upd" op_tp_upd;
   register_op "tp_now" (fun a -> let f = tp_get a in
     emit (Printf.sprintf "tp_now %s is_inside=%s" (str a "name" "") (if tp_is_inside f.f_st (z_of_int !now) then "1" else "0")));
-  register_case_end (fun () -> Hashtbl.reset tp_tab; tp_pts := []);
+  register_case_end (fun () -> Hashtbl.reset tp_tab; tp_pts := []; tp_order := []);
   register_oracle "C08" oracle_c08_case
